@@ -13,7 +13,9 @@ namespace Atto.Driver
 open Atto
 
 /-- `resp <METHOD> <maxHeaders> <cap> <maxBuf> <segs> <reads>`
-    reads: comma-separated sizes, or `B<sz>` (drain with reads of `sz`). -/
+    reads: comma-separated sizes, or `B<sz>` (`bytes()`: drain with reads of `sz`), `W<sz>` (`write_to`),
+    `S<sz>` (`split()` + `read_to_end`) — the same drain —, `Q<sz>` (`error_for_status()?.bytes()`:
+    `StatusCode::is_success` = 200 ≤ status < 300, else `ErrorKind::StatusCode`), `T<sz>` (`text_utf8()`). -/
 def opResp (args : List String) : String :=
   match args with
   | [m, mh, cap, mb, segs, rds] =>
@@ -24,25 +26,30 @@ def opResp (args : List String) : String :=
        | .blocked => "head=b"
        | .panic => "head=P"
        | .ok resp =>
-         let evs : List Ev :=
+         let drainEv (rest : List Char) : List String :=
+           match (String.ofList rest).toNat? with
+           | some sz => match drain maxBuf sz resp.body with
+              | (res, _) => [evToString (Ev.ofRR res)]
+           | none => []
+         let evs : List String :=
            match rds.toList with
            | 'T' :: rest =>
              -- `text_utf8()`: read_to_end, then lossy UTF-8 (WHATWG maximal-subpart replacement)
              (match (String.ofList rest).toNat? with
               | some sz => match drain maxBuf sz resp.body with
-                 | (.ok bs, _) => [Ev.ok (String.ofList (decodeUtf8 bs)).toUTF8.toList]
-                 | (res, _) => [Ev.ofRR res]
+                 | (.ok bs, _) => [evToString (Ev.ok (String.ofList (decodeUtf8 bs)).toUTF8.toList)]
+                 | (res, _) => [evToString (Ev.ofRR res)]
               | none => [])
-           | 'B' :: rest =>
-             (match (String.ofList rest).toNat? with
-              | some sz => match drain maxBuf sz resp.body with
-                 | (res, _) => [Ev.ofRR res]
-              | none => [])
+           | 'B' :: rest => drainEv rest
+           | 'W' :: rest => drainEv rest
+           | 'S' :: rest => drainEv rest
+           | 'Q' :: rest =>
+             if 200 ≤ resp.status ∧ resp.status < 300 then drainEv rest else [s!"e:status{resp.status}"]
            | _ =>
              let ns := (splitComma rds).filterMap String.toNat?
-             (reads maxBuf ns resp.body).1
+             ((reads maxBuf ns resp.body).1).map evToString
          match resp.coding with
-         | .plain => s!"head={resp.status} coding=plain hdrs={canonHeaders resp.headers} ev={",".intercalate (evs.map evToString)}"
+         | .plain => s!"head={resp.status} coding=plain hdrs={canonHeaders resp.headers} ev={",".intercalate evs}"
          | .gzip => s!"head={resp.status} coding=gzip hdrs={canonHeaders resp.headers} ev=~"
          | .deflate => s!"head={resp.status} coding=deflate hdrs={canonHeaders resp.headers} ev=~")
     | _, _, _, _ => "bad-op"
